@@ -526,3 +526,45 @@ def resolve_flow(e: ast.AST, at: ast.AST, fnode: ast.AST, depth: int = 8) -> ast
 
 def flow_text(e: ast.AST, at: ast.AST, fnode: ast.AST) -> str:
     return norm(resolve_flow(e, at, fnode))
+
+
+# --------------------------------------------------------------------------
+# Conditions expressed through boolean flag locals
+# --------------------------------------------------------------------------
+def flag_true_atoms(name: str, fnode: ast.AST, depth: int = 0) -> Optional[List[Tuple[ast.AST, bool]]]:
+    """Atoms (with polarity) that hold whenever local ``name`` is true, when the
+    flag is computed by guard clauses: every assignment but one gives the
+    constant False.  None if the flag is not of that shape."""
+    if depth > 3:
+        return None
+    assigns = [(st, v) for st, v in defs_of(fnode, name)
+               if isinstance(st, (ast.Assign, ast.AnnAssign)) and v is not None]
+    if not assigns:
+        return None
+    live = [(st, v) for st, v in assigns if not (isinstance(v, ast.Constant) and v.value is False)]
+    if len(live) != 1:
+        return None
+    st, v = live[0]
+    out: List[Tuple[ast.AST, bool]] = []
+    for t, pol in guards(st, stop=fnode):
+        out.extend(expand_atoms(t, pol, fnode, depth + 1))
+    if not (isinstance(v, ast.Constant) and v.value is True):
+        out.extend(expand_atoms(v, True, fnode, depth + 1))
+    return out
+
+
+def expand_atoms(test: ast.AST, pol: bool, fnode: ast.AST, depth: int = 0) -> List[Tuple[ast.AST, bool]]:
+    """conjuncts(test, pol) with flag locals replaced by the atoms that make them true."""
+    out: List[Tuple[ast.AST, bool]] = []
+    for atom, p in conjuncts(test, pol):
+        if isinstance(atom, ast.Name) and p:
+            sub = flag_true_atoms(atom.id, fnode, depth)
+            if sub is not None:
+                out.extend(sub)
+                continue
+            defs = single_assignments(fnode)
+            if atom.id in defs and depth < 3:
+                out.extend(expand_atoms(defs[atom.id], True, fnode, depth + 1))
+                continue
+        out.append((atom, p))
+    return out
